@@ -51,9 +51,10 @@ def _configs(ctx):
     q = lambda env, k: MLPQPolicy(env, width_size=8, depth=1, key=k)
     sac = lambda env, k: MLPSACPolicy(env, feature_size=4, width_size=8, depth=1, key=k)
     cfgs = [
-        ("PPO", "CartPole", PPO(num_envs=2, num_steps=8, num_epochs=2, num_batches=2), CartPole(), ac, 48),
+        # total_timesteps deliberately not a multiple of num_envs * num_steps
+        ("PPO", "CartPole", PPO(num_envs=2, num_steps=8, num_epochs=2, num_batches=2), CartPole(), ac, 48 + 7),
         ("DQN", "CartPole", DQN(buffer_size=64, learning_starts=8, num_envs=1, num_steps=4, batch_size=4,
-                                target_update_interval=2), CartPole(), q, 16),
+                                target_update_interval=2), CartPole(), q, 16 + 3),
     ]
     if not ctx.quick:
         cfgs += [
@@ -89,6 +90,10 @@ def run(ctx):
                 observe("trained_policy_differs_from_input", not _same(base, policy))
                 observe("repeat_same_inputs_bit_identical", _same(algo.learn(env, policy, total, key=k0), base))
                 observe("different_key_different_run", not _same(algo.learn(env, policy, total, key=k1), base))
+                # old-style uint32 keys are keys too
+                l0 = algo.learn(env, policy, total, key=jax.random.PRNGKey(seed % 1000))
+                l1 = algo.learn(env, policy, total, key=jax.random.PRNGKey(seed % 1000 + 1))
+                observe("different_legacy_key_different_run", not _same(l0, l1))
                 after = _leaves(policy)
                 observe("input_policy_untouched", all(np.array_equal(a, b) for a, b in zip(before, after)))
                 rec = RecordingBackend()
@@ -101,7 +106,7 @@ def run(ctx):
                 cbs["observer_callback_list"] = [LoggingCallback(RecordingBackend(), name="verif2"),
                                                  ProgressBarCallback()]
                 if ctx.quick:
-                    cbs.pop("observer_progress_bar")
+                    cbs.pop("observer_logging_tensorboard")
                 for tag, cb in cbs.items():
                     out = algo.learn(env, policy, total, key=k0, callback=cb)
                     jax.effects_barrier()
